@@ -14,22 +14,29 @@ L == INSTANCE Layout
 \* %C% = two CJK letters: an identifier whose first letter has no case at all; _Shouty: an underscore, then upper case
 Ifaces4 == {"FooBar", "barBaz", "%O%mega", "_hid"}
 Ifaces  == Ifaces4 \cup {"_Shouty", "%C%"}
-Exported == [n \in Ifaces |-> n \in {"FooBar", "%O%mega"}]
+\* A0Unrelated is declared in ANOTHER file of the same package (a0.go): used by the sibling family only, so that
+\* InterfaceFile differs between interfaces of one package
+IfacesX == Ifaces \cup {"A0Unrelated"}
+Exported == [n \in IfacesX |-> n \in {"FooBar", "%O%mega", "A0Unrelated"}]
 IfKey(n) == CASE n = "FooBar" -> "F" [] n = "barBaz" -> "b" [] n = "%O%mega" -> "O" [] n = "_hid" -> "h"
-              [] n = "_Shouty" -> "S" [] n = "%C%" -> "C"
+              [] n = "_Shouty" -> "S" [] n = "%C%" -> "C" [] n = "A0Unrelated" -> "A"
 DirKey(d) == CASE d = << >> -> "R" [] d = <<"w">> -> "r" [] d = <<"w", "a">> -> "a" [] d = <<"w", "a", "b">> -> "b"
                [] d = <<"w", "k">> -> "k" [] OTHER -> "n"
 
-Lower      == [n \in Ifaces |-> CASE n = "FooBar" -> "foobar" [] n = "barBaz" -> "barbaz" [] n = "%O%mega" -> "%o%mega" [] n = "_hid" -> "_hid" [] n = "_Shouty" -> "_shouty" [] n = "%C%" -> "%C%"]
-Upper      == [n \in Ifaces |-> CASE n = "FooBar" -> "FOOBAR" [] n = "barBaz" -> "BARBAZ" [] n = "%O%mega" -> "%O%MEGA" [] n = "_hid" -> "_HID" [] n = "_Shouty" -> "_SHOUTY" [] n = "%C%" -> "%C%"]
-FirstLower == [n \in Ifaces |-> CASE n = "FooBar" -> "fooBar" [] n = "barBaz" -> "barBaz" [] n = "%O%mega" -> "%o%mega" [] n = "_hid" -> "_hid" [] n = "_Shouty" -> "_Shouty" [] n = "%C%" -> "%C%"]
-Snake      == [n \in Ifaces |-> CASE n = "FooBar" -> "foo_bar" [] n = "barBaz" -> "bar_baz" [] OTHER -> UNSPECVAL]
-FirstUpper == [n \in Ifaces |-> CASE n = "FooBar" -> "FooBar" [] n = "barBaz" -> "BarBaz" [] n = "%O%mega" -> "%O%mega" [] n = "_hid" -> "_hid" [] n = "_Shouty" -> "_Shouty" [] n = "%C%" -> "%C%"]
-Kebab      == [n \in Ifaces |-> CASE n = "FooBar" -> "foo-bar" [] n = "barBaz" -> "bar-baz" [] OTHER -> UNSPECVAL]
+Lower      == [n \in IfacesX |-> CASE n = "FooBar" -> "foobar" [] n = "barBaz" -> "barbaz" [] n = "%O%mega" -> "%o%mega" [] n = "_hid" -> "_hid" [] n = "_Shouty" -> "_shouty" [] n = "%C%" -> "%C%" [] n = "A0Unrelated" -> "a0unrelated"]
+Upper      == [n \in IfacesX |-> CASE n = "FooBar" -> "FOOBAR" [] n = "barBaz" -> "BARBAZ" [] n = "%O%mega" -> "%O%MEGA" [] n = "_hid" -> "_HID" [] n = "_Shouty" -> "_SHOUTY" [] n = "%C%" -> "%C%" [] n = "A0Unrelated" -> "A0UNRELATED"]
+FirstLower == [n \in IfacesX |-> CASE n = "FooBar" -> "fooBar" [] n = "barBaz" -> "barBaz" [] n = "%O%mega" -> "%o%mega" [] n = "_hid" -> "_hid" [] n = "_Shouty" -> "_Shouty" [] n = "%C%" -> "%C%" [] n = "A0Unrelated" -> "a0Unrelated"]
+Snake      == [n \in IfacesX |-> CASE n = "FooBar" -> "foo_bar" [] n = "barBaz" -> "bar_baz" [] OTHER -> UNSPECVAL]
+FirstUpper == [n \in IfacesX |-> CASE n = "FooBar" -> "FooBar" [] n = "barBaz" -> "BarBaz" [] n = "%O%mega" -> "%O%mega" [] n = "_hid" -> "_hid" [] n = "_Shouty" -> "_Shouty" [] n = "%C%" -> "%C%" [] n = "A0Unrelated" -> "A0Unrelated"]
+Kebab      == [n \in IfacesX |-> CASE n = "FooBar" -> "foo-bar" [] n = "barBaz" -> "bar-baz" [] OTHER -> UNSPECVAL]
 \* operands chosen so that each function differs from its nearest neighbour on at least one interface name:
 \*   trimSuffix "za" / trimPrefix "ab" leave every name alone, trimRight "za" / trimLeft "ab" (cutsets) would not
 \*   (barBaz -> barB / rBaz); replace "/" "_" 1 differs from replaceAll on paths with two or more slashes
-TrimBaz    == [n \in Ifaces |-> CASE n = "barBaz" -> "bar" [] OTHER -> n]          \* trimSuffix "Baz"
+TrimBaz    == [n \in IfacesX |-> CASE n = "barBaz" -> "bar" [] OTHER -> n]          \* trimSuffix "Baz"
+
+\* the file an interface is declared in
+SrcFileOf(d, n) == IF n = "A0Unrelated" THEN "a0.go" ELSE L!SrcFile(d)
+SrcStemOf(d, n) == IF n = "A0Unrelated" THEN "a0" ELSE L!SrcStem(d)
 
 PathUnderscore(d) == IF Len(d) = 1 THEN "example.com_w" ELSE "example.com_w_" \o
                        (IF Len(d) = 2 THEN d[2] ELSE d[2] \o "_" \o d[3])
@@ -42,7 +49,7 @@ ProbeTemplate == "file://" \o L!RootStr \o "/probe.templ"
 \* ds: the spelling (segments) of the package directory d in this view
 Bindings(d, ds, n, tmpl, configDir, ifaceDirRel) ==
   [ConfigDir |-> configDir, InterfaceDirRelative |-> ifaceDirRel,
-   InterfaceDir |-> L!Abs(ds), InterfaceFile |-> L!Abs(ds) \o "/" \o L!SrcFile(d), InterfaceName |-> n,
+   InterfaceDir |-> L!Abs(ds), InterfaceFile |-> L!Abs(ds) \o "/" \o SrcFileOf(d, n), InterfaceName |-> n,
    Mock |-> IF Exported[n] THEN "Mock" ELSE "mock",
    SrcPackageName |-> L!PkgName(d), SrcPackagePath |-> L!PkgPath(d), Template |-> tmpl,
    InterfaceName__lower |-> Lower[n], InterfaceName__upper |-> Upper[n],
@@ -53,7 +60,7 @@ Bindings(d, ds, n, tmpl, configDir, ifaceDirRel) ==
    InterfaceName__firstUpper |-> FirstUpper[n], InterfaceName__kebabcase |-> Kebab[n],
    InterfaceName__trimSufZa |-> n, InterfaceName__trimPreAb |-> n,
    SrcPackagePath__repl1 |-> PathUnderscore1(d),
-   InterfaceFile__base |-> L!SrcFile(d), InterfaceFile__baseTrimGo |-> L!SrcStem(d),
+   InterfaceFile__base |-> SrcFileOf(d, n), InterfaceFile__baseTrimGo |-> SrcStemOf(d, n),
    InterfaceDir__dir |-> L!Abs(L!Parent(ds)), InterfaceDir__base |-> L!Last(ds)]
 
 \* (the last element of a directory that IS the symlink has no documented value: the link's name or the target's)
@@ -188,7 +195,7 @@ MkCase(l, d, n, sid, tmpl, vs) ==
    meta |-> [lid |-> LayoutId(l), cwd |-> L!Abs(l.cwd), mode |-> l.mode, cfgdir |-> L!Abs(l.cfgdir),
              via |-> l.via, cwdlog |-> L!LogAbs(l, l.cwd), cfgdirlog |-> L!LogAbs(l, l.cfgdir), ifdirimpl |-> L!ImplIfaceDir(l, d),
              cfgname |-> L!CfgFileName(l.mode), param |-> L!ConfigParam(l), envparam |-> L!EnvParam(l),
-             decoy |-> IF l.decoy = L!NoDecoy THEN "" ELSE L!Abs(l.decoy), decoyname |-> L!DecoyName(l), srcfile |-> L!SrcFile(d),
+             decoy |-> IF l.decoy = L!NoDecoy THEN "" ELSE L!Abs(l.decoy), decoyname |-> L!DecoyName(l), srcfile |-> SrcFileOf(d, n),
              decoy_may_win |-> L!DecoyMayWin(l),
              iface |-> n, ifdir |-> L!Abs(d), pkgpath |-> L!PkgPath(d), pkgname |-> L!PkgName(d),
              tmpl |-> tmpl, sid |-> sid, tag |-> sid \o IfKey(n) \o DirKey(d),
@@ -225,6 +232,57 @@ TestifyInit(layouts, ifaces, dirs) ==
               !.filename   = IF sid = "T0" THEN <<Lit("mock.go")>> ELSE <<Var("StructName"), Lit("_gen.go")>>,
               !.pkgname    = IF sid = "T0" THEN <<Var("SrcPackageName")>> ELSE <<Lit("p"), Pipe("InterfaceName", "lower")>>]))
 
+
+\* --- sibling family: two or more interfaces of ONE package selected WITHOUT an `interfaces:` entry of their own ---------
+\* The five templated values are written once (package `config:` or top level) and the interfaces are picked by
+\* `all: true`, by include-interface-regex, or found by recursive discovery from the module's root package.  All members
+\* of a group share the TEXT of the values; the contract (Expect, per member) is the rendering with the variables bound
+\* for THAT interface -- nothing of one sibling's rendering may show in another's.  Each shape puts a per-interface
+\* variable (InterfaceName, Mock, StructName, InterfaceFile) into one of the five parameters in turn.
+SibIds == {"G0", "G1", "G2", "G3", "G4", "G5", "G6"}
+SibShape(sid, tag) ==
+  LET perDir   == <<Var("InterfaceDir"), Lit("/g_" \o tag \o "/"), Var("InterfaceName")>>
+      constDir == <<Var("InterfaceDir"), Lit("/g_" \o tag)>>
+      perFile  == <<Pipe("InterfaceName", "lower"), Lit("_"), Pipe("InterfaceFile", "baseTrimGo"), Lit(".go")>> IN
+  CASE sid = "G0" -> [Base(tag) EXCEPT !.dir = <<Var("InterfaceDir"), Lit("/g_" \o tag \o "/"), Var("Mock"), Lit("_"),
+                                                 Pipe("InterfaceFile", "baseTrimGo"), Lit("_"), Var("InterfaceName")>>]
+    [] sid = "G1" -> [Base(tag) EXCEPT !.dir = constDir, !.filename = perFile]                     \* filename: InterfaceName, InterfaceFile
+    [] sid = "G2" -> [Base(tag) EXCEPT !.dir = perDir, !.pkgname = <<Lit("p"), Pipe("InterfaceName", "lower")>>]
+    [] sid = "G3" -> [Base(tag) EXCEPT !.dir = constDir, !.filename = <<Var("StructName"), Lit(".go")>>,
+                                      !.structname = <<Var("Mock"), Lit("S"), Pipe("InterfaceName", "upper")>>]
+    [] sid = "G4" -> [Base(tag) EXCEPT !.dir = perDir,
+                                      !.schema = <<Lit("file://"), Var("InterfaceDir"), Lit("/gs_" \o tag \o "/"), Var("Mock"), Lit("_"), Var("StructName"), Lit(".json")>>]
+    [] sid = "G5" -> [Base(tag) EXCEPT !.dir = constDir, !.filename = perFile,
+                                      !.pkgname = <<Var("Mock"), Lit("p_"), Pipe("InterfaceFile", "baseTrimGo"), Lit("_"), Var("StructName")>>,
+                                      !.structname = <<Var("Mock"), Pipe("InterfaceFile", "baseTrimGo"), Lit("_"), Var("InterfaceName")>>]
+    [] sid = "G6" -> [Base(tag) EXCEPT !.dir = <<Var("InterfaceDir"), Lit("/g_" \o tag \o "/"), Var("StructName")>>,
+                                      !.filename = <<Var("Mock"), Lit("_"), Pipe("InterfaceName", "firstLower"), Lit(".go")>>,
+                                      !.pkgname = <<Q(<<Pipe("InterfaceName", "upper")>>), Lit("p")>>,
+                                      !.structname = <<Q(<<Var("Mock")>>), Lit("Of"), Var("InterfaceName")>>,
+                                      !.schema = <<Lit("file://"), Var("InterfaceFile"), Lit("."), Var("InterfaceName"), Lit("." \o tag \o ".json")>>]
+    [] sid = "GT" -> [Base(tag) EXCEPT !.dir = <<Var("InterfaceDir"), Lit("/g_" \o tag \o "/"), Pipe("InterfaceName", "lower")>>,   \* one package per mock
+                                      !.pkgname = <<Pipe("InterfaceName", "lower"), Lit("mock")>>]
+
+SibSelects == {"all", "regex", "recursive"}
+SibLevels  == {"pkg", "root"}
+SibMembers(sel) == IF sel = "regex" THEN {"FooBar", "_hid", "A0Unrelated"} ELSE IfacesX
+SelKey(sel) == CASE sel = "all" -> "a" [] sel = "regex" -> "x" [] sel = "recursive" -> "r"
+\* the package the config names: the one of the group, or (recursive) the root package of the module
+SibCfgDir(sel, d) == IF sel = "recursive" THEN <<"w">> ELSE d
+SibCase(l, d, n, sid, sel, lvl, tmpl) ==
+  LET gid == sid \o "." \o SelKey(sel) \o lvl \o "." \o DirKey(SibCfgDir(sel, d))
+      c   == MkCase(l, d, n, gid, tmpl, SibShape(sid, sid \o SelKey(sel) \o lvl)) IN
+  [c EXCEPT !.meta = @ @@ [group |-> LayoutId(l) \o "/" \o gid, select |-> sel, glevel |-> lvl,
+                           cfgpkg |-> L!PkgPath(SibCfgDir(sel, d)), members |-> SibMembers(sel)]]
+SibInit(layouts, dirs, sels, lvls, sids) ==
+  \E l \in layouts, sel \in sels, lvl \in lvls, sid \in sids :
+    \E d \in (IF sel = "recursive" THEN L!ModDirs ELSE dirs), n \in SibMembers(sel) :
+      InitWith(SibCase(l, d, n, sid, sel, lvl, ProbeTemplate))
+\* the documented one-package-per-mock layout through the built-in testify template
+SibTestifyInit(layouts, dirs, lvls) ==
+  \E l \in layouts, lvl \in lvls, d \in dirs, n \in {"FooBar", "barBaz", "A0Unrelated"} :
+      InitWith([SibCase(l, d, n, "GT", "regex", lvl, "testify") EXCEPT !.meta.members = {"FooBar", "barBaz", "A0Unrelated"}])
+
 AllDirs == L!ModDirs
 HomeW == {l \in HomeLayouts : l.mode = "search_yml" /\ l.cwd = <<"w">>}
 HomeA == {l \in HomeLayouts : l.mode = "flag_abs" /\ l.cwd = <<"w", "a">>}
@@ -239,6 +297,9 @@ InitQuick ==
   \/ ResInit(HomeW, {"FooBar", "barBaz"}, {<<"w", "a">>}, SIds, FIds, {"p0", "p2"}, {"d0", "d1"}, {"t0", "t1"})
   \/ ResInit(HomeA, {"%O%mega", "_hid"}, {<<"w", "k">>}, SIds, {"f0", "f1"}, PIds, {"d0", "d2"}, {"t0", "t2"})
   \/ TestifyInit({l \in HomeLayouts : l.mode = "search_yml"}, Ifaces4, {<<"w", "a", "b">>})
+  \/ SibInit(HomeW, {<<"w", "a">>}, SibSelects, SibLevels, SibIds)
+  \/ SibInit(HomeA, {<<"w", "k">>}, {"all", "regex"}, SibLevels, SibIds)
+  \/ SibTestifyInit(HomeW, {<<"w", "a", "b">>}, SibLevels)
 
 \* --- thorough: everything
 InitThorough ==
@@ -249,6 +310,8 @@ InitThorough ==
   \/ TestifyInit(HomeLayouts, Ifaces4, AllDirs)
   \/ LagInit(HomeLayouts, Ifaces4, AllDirs)
   \/ DeepInit(HomeLayouts, Ifaces4, {<<"w", "k">>, <<"w">>})
+  \/ SibInit(HomeLayouts, AllDirs, SibSelects, SibLevels, SibIds)
+  \/ SibTestifyInit(HomeLayouts, AllDirs, SibLevels)
 
 \* --- tiny: for the liveness check and the interleaved (Go map order) check
 InitTiny == ResInit(HomeW, {"FooBar"}, {<<"w", "a">>}, SIds, FIds, {"p0", "p2"}, {"d0", "d2"}, {"t0", "t2"})
